@@ -34,6 +34,7 @@ func init() {
 			{From: "C12.a", Match: "lookup-before-wait", As: "C04.a", Why: "every appended header is readable by height wherever it sits: a by-height read that waits for the published height without a full lookup first never finds a flushed header above a gap"},
 			{From: "C12.a", Match: "second-lookup-returned", As: "C04.a", Why: "see lookup-before-wait"},
 			{From: "C12.b", Match: "recheck-under-lock", As: "C04.a", Why: "a stored header equal to Head is readable by height: a reader that subscribes to exactly the height the write loop has just published has to notice it under the lock, or it waits for a signal nobody sends"},
+			{From: "C14.d", Match: "removal-outside-step", As: "C04.i", Why: "Has, Get and GetByHeight agree with HasAt while a header is stored: nothing but a deletion step takes a header (or its hash entry) out of a read tier — a pending batch that drops the hash of a header appended a second time answers Has(hash) false for a height HasAt reports"},
 			{From: "C14.d", Match: "wipe-after-deletion", As: "C04.h", Why: "a whole-chain deletion drops the pointers only after the deletion went through: dropped first, a part-way failure makes setTail re-seed the head at the failed height on disk, and after a restart Head = Tail although the headers up to the old head are stored"},
 			{From: "C17.c", Match: "sync-ack-after-drain", As: "C04.h", Why: "'once writes are synced' is the premise of every clause: Sync returns only after the write loop found its queue empty; a drain that stops half-way (a counting loop over a shrinking len) leaves appended headers unreadable after Sync"},
 			{From: "C17.e", Match: "pointer-move-unconditional", As: "C04.c", Why: "Head is the top of the contiguous run only if every append round re-evaluates it, whatever range was appended"},
